@@ -212,6 +212,56 @@ theorem C08_permitted_app_exchange_succeeds_cold_routed (fuel : Nat) (st : St) (
   simp
 
 
+/-! ### groundwork for chains of routers: the ROUTER-TO-ROUTER ARP exchange -/
+
+/-- ROUTER ASKS ROUTER: the plain, powered-on router `r1` asks, out of its interface `i1` (cabled to interface `i2` of the plain,
+powered-on router `r2`), for `r2`'s address there (e.g. the next hop of a route); `r2` learns `r1`'s pair and answers; `r1`
+learns `r2` (twice: frame source and ARP payload).  The third tracked node is untouched. -/
+theorem router_router_arp (fuel : Nat) (X : St) (c : List NodeCfg) (o r1 r2 i1 i2 k0 : Nat) (ndO nd1 nd2 : Node)
+    (if1 if2 own1 own2 : Iface)
+    (S : Snap X c o r1 r2 ndO nd1 nd2) (ho1 : o ≠ r1) (h12 : r1 ≠ r2) (ho2 : o ≠ r2)
+    (hk1 : nd1.kind = .router) (hon1 : nd1.on = true) (hfw1 : nd1.fw = none) (hi1 : nd1.ifaces[i1]? = some if1)
+    (hen1 : if1.enabled = true) (hpeer1 : if1.peer = some (r2, i2)) (hown1 : ifaceWithIp nd1.ifaces if1.ip = some own1)
+    (hmac1 : if1.mac ≠ bcastMac)
+    (hcold : nd1.arpGet if2.ip = none) (hfi : firstIn nd1.ifaces if2.ip 0 = some k0) (hfe : firstEnabledIn nd1.ifaces if2.ip 0 = some i1)
+    (hnn : if2.ip ≠ if1.netAddr) (hnb : if2.ip ≠ if1.bcastAddr)
+    (hk2 : nd2.kind = .router) (hon2 : nd2.on = true) (hfw2 : nd2.fw = none) (hi2 : nd2.ifaces[i2]? = some if2)
+    (hen2 : if2.enabled = true) (hpeer2 : if2.peer = some (r1, i1)) (hown2 : ifaceWithIp nd2.ifaces if2.ip = some own2)
+    (hfe2 : firstEnabledIn nd2.ifaces if1.ip 0 = some i2) :
+    ∃ Y, sendArpReq (fuel + 10) X r1 if2.ip = Y ∧
+      Snap Y c o r1 r2 ndO ((nd1.addArp if2.ip if2.mac i1).addArp if2.ip if2.mac i1) (nd2.addArp if1.ip if1.mac i2) := by
+  have ifR1 : X.iface? r1 i1 = some if1 := by unfold St.iface?; have := S.nb; unfold St.node? at this; rw [this]; exact hi1
+  have ifR2 : X.iface? r2 i2 = some if2 := by unfold St.iface?; have := S.ns; unfold St.node? at this; rw [this]; exact hi2
+  refine ⟨_, rfl, ?_⟩
+  rw [router_arp_request (fuel + 7) X r1 i1 nd1 if1 if2.ip k0 S.nb hcold hfi hfe ifR1 hnn hnb]
+  generalize hX1 : ({ X with nextId := X.nextId + 1 } : St) = X1
+  have S1 : Snap X1 c o r1 r2 ndO nd1 nd2 := by rw [← hX1]; exact S.nextId _
+  generalize hQ : mkArpReq X if1 if2.ip = Q
+  have Qs : Q.srcMac = if1.mac ∧ Q.dstMac = bcastMac ∧ Q.srcIp = if1.ip ∧ Q.dstIp = if2.ip ∧ Q.ttl = 64 ∧
+      Q.pl = .arpReq if1.ip if1.mac if2.ip := by rw [← hQ]; exact ⟨rfl, rfl, rfl, rfl, rfl, rfl⟩
+  obtain ⟨q1, q2, q3, q4, q5, q6⟩ := Qs
+  rw [link_step (fuel + 7) X1 r1 i1 r2 i2 if1 if2 Q (by rw [S.iface S1]; exact ifR1) hen1 hpeer1 (by rw [S.iface S1]; exact ifR2) hen2]
+  rw [router_arp_req (fuel + 5) X1 r2 i2 nd2 if2 own2 Q if1.ip if1.mac S1.ns hk2 hon2 hfw2 (by rw [S.iface S1]; exact ifR2) hen2 hown2 q6 q2 q4
+    (by rw [q5]; decide)]
+  show Snap (sendArpReply (fuel + 5) _ r2 _) c o r1 r2 _ _ _
+  generalize hX2 : ((X1.emit (.rx r2 i2 Q.id Q.ttl)).modNode r2 (fun nd => nd.addArp Q.srcIp Q.srcMac i2)).emit (.sw r2 Q.id if2.ip true) = X2
+  have S2 : Snap X2 c o r1 r2 ndO nd1 (nd2.addArp if1.ip if1.mac i2) := by
+    rw [← hX2, q3, q1]
+    exact ((S1.emit _).modS _ (fun nd => addArp_cfg nd _ _ _) ho2 h12).emit _
+  rw [router_arp_reply_send (fuel + 2) X2 r2 i2 (nd2.addArp if1.ip if1.mac i2) if2 if2.ip if2.mac if1.ip if1.mac S2.ns
+    (by rw [addArp_ifaces]; exact hfe2) (by rw [S.iface S2]; exact ifR2)]
+  generalize hX3 : ({ X2 with nextId := X2.nextId + 1 } : St) = X3
+  have S3 : Snap X3 c o r1 r2 ndO nd1 (nd2.addArp if1.ip if1.mac i2) := by rw [← hX3]; exact S2.nextId _
+  generalize hP : mkArpRep X2 if2 if2.ip if2.mac if1.ip if1.mac = P
+  have Ps : P.srcMac = if2.mac ∧ P.dstMac = if1.mac ∧ P.srcIp = if2.ip ∧ P.dstIp = if1.ip ∧ P.ttl = 64 ∧
+      P.pl = .arpRep if2.ip if2.mac if1.ip if1.mac := by rw [← hP]; exact ⟨rfl, rfl, rfl, rfl, rfl, rfl⟩
+  obtain ⟨p1, p2, p3, p4, p5, p6⟩ := Ps
+  rw [link_step (fuel + 2) X3 r2 i2 r1 i1 if2 if1 P (by rw [S.iface S3]; exact ifR2) hen2 hpeer2 (by rw [S.iface S3]; exact ifR1) hen1]
+  rw [router_arp_rep fuel X3 r1 i1 nd1 if1 own1 P if2.ip if2.mac if1.mac S3.nb hk1 hon1 hfw1 (by rw [S.iface S3]; exact ifR1) hown1 p6 p2
+    hmac1 p4 (by rw [p5]; decide)]
+  rw [p3, p1]
+  exact ((((S3.emit _).modB _ (fun nd => addArp_cfg nd _ _ _) ho1 h12).emit _).modB _ (fun nd => addArp_cfg nd _ _ _) ho1 h12)
+
 /-! ### non-vacuity: `exNet` with a DNS-like service (key 53) on host 2, its port open on both hosts, a rule on the router -/
 
 def caSt (routerRule clientPort server : Bool) : St :=
